@@ -283,11 +283,20 @@ int main(int argc, char** argv)
         static bool seen_fail = false;
         double k              = double(maxlen) / 100.0;
         auto gen              = rc::gen::scale(k, rc::gen::container<std::vector<uint8_t>>(rc::gen::resize(100, rc::gen::arbitrary<uint8_t>())));
+        // Shrinking is bounded in time: once the budget is used up every further candidate is
+        // accepted without being run, so rapidcheck settles on the smallest failing input found so
+        // far (a long input of very cheap cases could otherwise be shrunk for hours).
+        static double shrink_budget_s = getenv("VERIF_SHRINK_S") ? atof(getenv("VERIF_SHRINK_S")) : 25.0;
+        static std::chrono::steady_clock::time_point first_fail_at;
         bool ok               = rc::check(std::string(harness_info().id) + " property", [&]() {
             std::vector<uint8_t> v = *gen;
+            if (seen_fail && std::chrono::duration<double>(std::chrono::steady_clock::now() - first_fail_at).count() > shrink_budget_s)
+                return;
             Verdict r              = run_one(v.data(), v.size());
             if (r.kind == Verdict::Fail)
             {
+                if (!seen_fail)
+                    first_fail_at = std::chrono::steady_clock::now();
                 seen_fail          = true;
                 g_rep.counting     = false;
                 last_fail_input    = v;
